@@ -362,6 +362,9 @@ class WorkflowDatabaseManager:
             value = None if value == 'reload' else value
             self.put_workflow_params_1(key, value)
 
+        # (the table is rewritten: keep a hold point set since start-up)
+        self.put_workflow_hold_cycle_point(schd.pool.hold_point)
+
         self.put_workflow_params_1(
             self.KEY_CYCLE_POINT_TIME_ZONE,
             getattr(schd.options, self.KEY_CYCLE_POINT_TIME_ZONE, None),
